@@ -620,6 +620,31 @@ def eval_histories(ctx, cases, workroot, base=0):
             ctx.mismatch(c, {"observed": mism[:5]}, {"model": (rep or {}).get("res", "")[:500]}, what=mism[0])
 
 
+def property_complaints(case, workroot, tag):
+    rec = exec_history(case, workroot, tag)
+    for d in ("_out", "_cwd", "_in"):
+        shutil.rmtree(os.path.join(workroot, tag + d), ignore_errors=True)
+    viol, _ = judge_history(None, case, rec, None)
+    return viol
+
+
+def shrink_history(case, workroot):
+    """smallest sub-history that still violates the property: a single operation, else the shortest prefix"""
+    ops = case["ops"]
+    n = 0
+    for k in range(len(ops)):
+        n += 1
+        c2 = dict(case, ops=[ops[k]])
+        if property_complaints(c2, workroot, f"s{n}"):
+            return c2
+    for k in range(1, len(ops)):
+        n += 1
+        c2 = dict(case, ops=ops[:k])
+        if property_complaints(c2, workroot, f"s{n}"):
+            return c2
+    return case
+
+
 # ---------------------------------------------------------------- predicate histories
 
 MAGS = [1e-9, 1e-4, 1.0, 3.0, 1e3, 1e7, 1e12]
@@ -861,6 +886,13 @@ def run(ctx):
         eval_pred_cases(ctx, cases)
         for k in range(ctx.scale(8, 150)):
             eval_process_case(ctx, gen_process_case(rng), workroot, f"p{k}")
+        # shrink the first few history violations (the first one becomes the replay)
+        for v in ctx.spec_viol[:3]:
+            if isinstance(v.get("case"), dict) and v["case"].get("kind") == "history":
+                try:
+                    v["case"] = shrink_history(v["case"], workroot)
+                except Exception:  # noqa: BLE001
+                    pass
     finally:
         shutil.rmtree(workroot, ignore_errors=True)
     ctx.spec_viol = ctx.spec_viol[:30]
